@@ -1,7 +1,7 @@
 """C17: per-actor certificates + glue (see lean/Poupool/Properties/C17.lean and checks/actors_common.py)."""
 from checks import actors_common as ac
 
-THEOREMS = ['Poupool.C17.filtration_pump_only_in_stir', 'Poupool.C17.swim_pump_only_in_stir']
+THEOREMS = ['Poupool.C17.no_early_or_warm_stir', 'Poupool.C17.stirs_when_cold_or_unknown', 'Poupool.C17.filtration_pump_only_in_stir', 'Poupool.C17.swim_pump_only_in_stir']
 MODULE = "Poupool.Properties.C17"
 
 
@@ -21,6 +21,8 @@ def replay(path):
 
 
 def extra(chk, info, res):
+    from checks import winter_common
+    winter_common.correspondence(chk, ('poll',))
     if info is not None:
         from vlib import lean
         lean.check_theorems(chk, "Poupool.Properties.C08", ["Poupool.C08.filtration_timeouts", "Poupool.C08.other_timeouts", "Poupool.C08.filtration_timers"])
